@@ -59,6 +59,15 @@ func TestC03Confinement(t *testing.T) {
 			os.Symlink("../sibling/eve.admin", filepath.Join(s.base, "eve.admin"))
 			vlib.Class("base-holds-dangling-symlinks-named-like-hash-files")
 		}
+		// the work area may exist but be unusable (a plain file, a dangling link): operations then fail -- they do not go elsewhere
+		switch rapid.SampledFrom([]string{"", "", "", "file", "dangling-symlink"}).Draw(t, "tmpstate") {
+		case "file":
+			writeRaw(s.base+"/.tmp", "not a directory\n")
+			vlib.Class("work-area-unusable")
+		case "dangling-symlink":
+			os.Symlink(filepath.Join(s.root, "nowhere"), s.base+"/.tmp")
+			vlib.Class("work-area-unusable")
+		}
 		m := vlib.InvalidNames(s.base, "alice")
 		var classes []string
 		for k := range m {
